@@ -3,7 +3,8 @@ import Enc.Lemmas.ProtoWire
 # C12, record level: a struct written by the model = the reference encoding of a list of records
 
 Universe of this file (`tyOK`): message types whose fields are `bool`, the six integer kinds the codec supports
-(`int int32 int64 uint uint32 uint64`; plain, zigzag32/64 on the signed ones, fixed32/64 on `uint32/uint64`),
+(`int int32 int64 uint uint32 uint64`; plain, zigzag32/64 on the signed ones, fixed32/64 on `uint32/uint64` and —
+sfixed32/sfixed64 — on `int32/int64`),
 `float32/float64`, `string`, `[]byte`, nested messages of the same shape, optional fields `*T` (`T` a scalar other
 than `[]byte`, or a message) and repeated fields `[]T` (`T` a scalar, `[]byte`, or a message).  No maps, arrays,
 named types, `[]*T`, `**T`.
@@ -20,6 +21,8 @@ named types, `[]*T`, `**T`.
 
 Model revision: the one with `wrapPtrs` (go: `pointersTo`): a fixed32/fixed64 tag on `*uint32/*uint64/*float32/
 *float64` yields the fixed-width codec behind the pointer codec; `optOK`/`fixedFits`/`codecFor` cover it.
+And the one with `Codec.sfixed32/.sfixed64`: a fixed32 tag on `int32` (fixed64 on `int64`), also behind a pointer, yields
+the signed fixed-width codec (4/8 little-endian bytes of the two's complement); covered as well.
 -/
 set_option linter.unusedSimpArgs false
 set_option linter.unusedVariables false
@@ -65,23 +68,24 @@ def isFixedWire : Wire → Bool
   | .fixed32 | .fixed64 => true
   | _ => false
 
-/-- a fixed32/fixed64 tag on an integer field must sit on the unsigned kind of that width (on every other integer kind
-the Go encoder silently writes a varint, the reference has no opinion); floats/strings/… ignore it on both sides -/
+/-- a fixed32/fixed64 tag on an integer field must sit on a kind of exactly that width: `uint32`/`int32` (fixed32 /
+sfixed32) resp. `uint64`/`int64` (fixed64 / sfixed64); on every other integer kind the Go encoder silently writes a
+varint, the reference has no opinion; floats/strings/… ignore it on both sides -/
 def fixedFits : Wire → Ty → Bool
-  | .fixed32, .int k => k == .u32
-  | .fixed64, .int k => k == .u64
-  | .fixed32, .ptr (.int k) => k == .u32
-  | .fixed64, .ptr (.int k) => k == .u64
+  | .fixed32, .int k => k == .u32 || k == .i32
+  | .fixed64, .int k => k == .u64 || k == .i64
+  | .fixed32, .ptr (.int k) => k == .u32 || k == .i32
+  | .fixed64, .ptr (.int k) => k == .u64 || k == .i64
   | _, _ => true
 
 /-- restrictions that tie the tag options to the field type -/
 def optOK (t : Ty) (o : FieldOpt) : Bool :=
   match t with
-  | .int k => !o.fixed || k == .u32 || k == .u64
+  | .int k => !o.fixed || k == .u32 || k == .u64 || k == .i32 || k == .i64
   | .struct _ => !o.zigzag            -- the Go encoder would pass the zigzag flag down to every nested integer
   -- optional fields: the same restrictions as for the pointee
   | .ptr t' => (match t' with
-    | .int k => !o.fixed || k == .u32 || k == .u64
+    | .int k => !o.fixed || k == .u32 || k == .u64 || k == .i32 || k == .i64
     | .struct _ => !o.zigzag
     | _ => true)
   -- repeated fields: zigzag/fixed tags are the known class protoRepeatedZigzagOrFixed (the slice codec drops them)
@@ -144,9 +148,10 @@ end
 
 /-! ## the records a value denotes (reference side) -/
 
-/-- wire value of an integer of kind `k` under the field options -/
+/-- wire value of an integer of kind `k` under the field options (fixed width: little-endian two's complement, which
+for the unsigned kinds in range is the number itself: `ofInt32_nonneg`, `ofInt64_nonneg`) -/
 def intWire (k : IntKind) (o : FieldOpt) (i : Int) : WireVal :=
-  if o.fixed then (if k.bits = 32 then .i32 (natLE i.toNat 4) else .i64 (natLE i.toNat 8))
+  if o.fixed then (if k.bits = 32 then .i32 (natLE (ofInt32 i) 4) else .i64 (natLE (ofInt64 i) 8))
   else if k.signed then .varint (if o.zigzag then zigzag i else ofInt64 i)
   else .varint i.toNat
 
@@ -201,8 +206,12 @@ def codecFor (t : Ty) (o : FieldOpt) : Codec :=
   match t with
   | .int .u32 => if o.fixed then .fixed32 else .uint32
   | .int .u64 => if o.fixed then .fixed64 else .uint64
+  | .int .i32 => if o.fixed then .sfixed32 else .int32
+  | .int .i64 => if o.fixed then .sfixed64 else .int64
   | .ptr (.int .u32) => if o.fixed then .ptr .fixed32 else .ptr .uint32
   | .ptr (.int .u64) => if o.fixed then .ptr .fixed64 else .ptr .uint64
+  | .ptr (.int .i32) => if o.fixed then .ptr .sfixed32 else .ptr .int32
+  | .ptr (.int .i64) => if o.fixed then .ptr .sfixed64 else .ptr .int64
   | t => codecOf t
 
 theorem tagAgree_optOK {pos tag t} (h : tagAgree pos tag t = true) : optOK t (fieldOpt pos tag) = true := by
@@ -471,15 +480,19 @@ theorem field_scalar (t : Ty) (o : FieldOpt) (v : Val) (fl : Flags) (num : Nat)
         simp only [intWire, hf, IntKind.signed, codecFor, codecOf, Bool.false_eq_true, if_false, if_true]
         exact fs_varint num hn _ _ _ (fl.u64 i) _ rfl (by simp only [encode, h, if_true]) (u64_signed fl o i hz h1 h2)
       case i32 =>
-        have hf : o.fixed = false := by simpa [optOK] using ho
         obtain ⟨h1, h2⟩ := inRange_signed _ i (by simp) hv
-        simp only [intWire, hf, IntKind.signed, codecFor, codecOf, Bool.false_eq_true, if_false, if_true]
-        exact fs_varint num hn _ _ _ (fl.u64 i) _ rfl (by simp only [encode, h, if_true]) (u64_signed fl o i hz h1 h2)
+        by_cases hf : o.fixed = true
+        · simp only [intWire, hf, IntKind.bits, codecFor, if_true]
+          exact fs_fixed32 num hn _ _ _ (BitVec.ofInt 32 i) _ rfl (by simp only [encode, h, if_true]) (toNat_ofInt_32 i)
+        · simp only [intWire, hf, IntKind.signed, codecFor, codecOf, Bool.false_eq_true, if_false, if_true]
+          exact fs_varint num hn _ _ _ (fl.u64 i) _ rfl (by simp only [encode, h, if_true]) (u64_signed fl o i hz h1 h2)
       case i64 =>
-        have hf : o.fixed = false := by simpa [optOK] using ho
         obtain ⟨h1, h2⟩ := inRange_signed _ i (by simp) hv
-        simp only [intWire, hf, IntKind.signed, codecFor, codecOf, Bool.false_eq_true, if_false, if_true]
-        exact fs_varint num hn _ _ _ (fl.u64 i) _ rfl (by simp only [encode, h, if_true]) (u64_signed fl o i hz h1 h2)
+        by_cases hf : o.fixed = true
+        · simp only [intWire, hf, IntKind.bits, codecFor, if_true, Nat.reduceEqDiff, if_false]
+          exact fs_fixed64 num hn _ _ _ (BitVec.ofInt 64 i) _ rfl (by simp only [encode, h, if_true]) (toNat_ofInt_64 i)
+        · simp only [intWire, hf, IntKind.signed, codecFor, codecOf, Bool.false_eq_true, if_false, if_true]
+          exact fs_varint num hn _ _ _ (fl.u64 i) _ rfl (by simp only [encode, h, if_true]) (u64_signed fl o i hz h1 h2)
       case uint =>
         have hf : o.fixed = false := by simpa [optOK] using ho
         obtain ⟨h1, h2⟩ := inRange_unsigned _ i (by simp) hv
@@ -490,14 +503,14 @@ theorem field_scalar (t : Ty) (o : FieldOpt) (v : Val) (fl : Flags) (num : Nat)
         obtain ⟨_, h3⟩ := inRange_u32 i hv
         by_cases hf : o.fixed = true
         · simp only [intWire, hf, IntKind.bits, codecFor, if_true]
-          exact fs_fixed32 num hn _ _ _ (BitVec.ofInt 32 i) _ rfl (by simp only [encode, h, if_true]) (ofInt32_toNat i h1 h3)
+          exact fs_fixed32 num hn _ _ _ (BitVec.ofInt 32 i) _ rfl (by simp only [encode, h, if_true]) (toNat_ofInt_32 i)
         · simp only [intWire, hf, IntKind.signed, codecFor, Bool.false_eq_true, if_false]
           exact fs_varint num hn _ _ _ (BitVec.ofInt 64 i) _ rfl (by simp only [encode, h, if_true]) (ofInt64_toNat i h1 h2)
       case u64 =>
         obtain ⟨h1, h2⟩ := inRange_unsigned _ i (by simp) hv
         by_cases hf : o.fixed = true
         · simp only [intWire, hf, IntKind.bits, codecFor, if_true, Nat.reduceEqDiff, if_false]
-          exact fs_fixed64 num hn _ _ _ (BitVec.ofInt 64 i) _ rfl (by simp only [encode, h, if_true]) (ofInt64_toNat i h1 h2)
+          exact fs_fixed64 num hn _ _ _ (BitVec.ofInt 64 i) _ rfl (by simp only [encode, h, if_true]) (toNat_ofInt_64 i)
         · simp only [intWire, hf, IntKind.signed, codecFor, Bool.false_eq_true, if_false]
           exact fs_varint num hn _ _ _ (BitVec.ofInt 64 i) _ rfl (by simp only [encode, h, if_true]) (ofInt64_toNat i h1 h2)
     · simp only [h, Bool.false_eq_true, if_false, FieldSpec]
@@ -855,15 +868,19 @@ theorem payload_ok (t : Ty) (o : FieldOpt) (v : Val) (wz : Bool) (num : Nat)
         simp only [intWire, hf, IntKind.signed, Bool.false_eq_true, if_false, if_true]
         exact ⟨h0, hn, by split; exact zigzag_lt i h1 h2; exact ofInt64_lt i⟩
       case i32 =>
-        have hf : o.fixed = false := by simpa [optOK] using ho
         obtain ⟨h1, h2⟩ := inRange_signed _ i (by simp) hv
-        simp only [intWire, hf, IntKind.signed, Bool.false_eq_true, if_false, if_true]
-        exact ⟨h0, hn, by split; exact zigzag_lt i h1 h2; exact ofInt64_lt i⟩
+        by_cases hf : o.fixed = true
+        · simp only [intWire, hf, IntKind.bits, if_true]
+          exact ⟨h0, hn, natLE_length _ _⟩
+        · simp only [intWire, hf, IntKind.signed, Bool.false_eq_true, if_false, if_true]
+          exact ⟨h0, hn, by split; exact zigzag_lt i h1 h2; exact ofInt64_lt i⟩
       case i64 =>
-        have hf : o.fixed = false := by simpa [optOK] using ho
         obtain ⟨h1, h2⟩ := inRange_signed _ i (by simp) hv
-        simp only [intWire, hf, IntKind.signed, Bool.false_eq_true, if_false, if_true]
-        exact ⟨h0, hn, by split; exact zigzag_lt i h1 h2; exact ofInt64_lt i⟩
+        by_cases hf : o.fixed = true
+        · simp only [intWire, hf, IntKind.bits, if_true, Nat.reduceEqDiff, if_false]
+          exact ⟨h0, hn, natLE_length _ _⟩
+        · simp only [intWire, hf, IntKind.signed, Bool.false_eq_true, if_false, if_true]
+          exact ⟨h0, hn, by split; exact zigzag_lt i h1 h2; exact ofInt64_lt i⟩
       case uint =>
         have hf : o.fixed = false := by simpa [optOK] using ho
         obtain ⟨h1, h2⟩ := inRange_unsigned _ i (by simp) hv
